@@ -71,6 +71,13 @@ func (c *concurrencyOperator) Next(ctx context.Context) ([]model.StepVector, err
 
 func (c *concurrencyOperator) pull(ctx context.Context) {
 	defer close(c.buffer)
+	// A panic below this operator (e.g. in a storage callback) fails the query,
+	// it must not take the process down.
+	defer func() {
+		if e := recover(); e != nil {
+			c.buffer <- maybeStepVector{err: model.PanicToError(e)}
+		}
+	}()
 
 	for {
 		select {
